@@ -3,6 +3,7 @@ package main
 import (
 	"fmt"
 	"go/token"
+	"go/types"
 	"strings"
 )
 
@@ -38,6 +39,16 @@ func (r *repoCtx) ir(name string) *FuncIR {
 	return buildFuncIR(fi, r.co.allFuncs(), r.co.Fset)
 }
 
+// irOf: the IR of a resolved callee, nil when its body is not in the loaded packages.
+func (r *repoCtx) irOf(fn *types.Func) *FuncIR {
+	for _, fi := range r.funcs {
+		if fi.Obj == fn && fi.Decl.Body != nil {
+			return buildFuncIR(fi, r.co.allFuncs(), r.co.Fset)
+		}
+	}
+	return nil
+}
+
 func (r *repoCtx) pos(p token.Pos) string { return relPos(posStr(r.co.Fset, p)) }
 
 // successReturn: a return whose error result is nil.
@@ -53,7 +64,7 @@ func successReturn(ir *FuncIR, n *ReturnN) bool {
 
 // tagLoopRules checks one loop body that registers tags: zero rejection (when required), collision
 // rejection and insertion under the same key.
-func (r *repoCtx) tagLoopRules(fn string, ir *FuncIR, body Block, label string, zeroMustFail bool) {
+func (r *repoCtx) tagLoopRules(fn string, ir *FuncIR, body Block, label string, zeroMustFail bool) (table string) {
 	c := r.c
 	tagVar, src := "", ""
 	var tagPos token.Pos
@@ -72,7 +83,7 @@ func (r *repoCtx) tagLoopRules(fn string, ir *FuncIR, body Block, label string, 
 	construct := fn + "/" + label
 	if tagVar == "" {
 		c.Undecided("tag-check/loop", construct, "", "no tag value (Crc32() or .Magic) read in this loop body")
-		return
+		return ""
 	}
 	// when the tag may legitimately be absent (TL2 magic 0), the checks live under `if tag != 0`
 	blk := body
@@ -133,6 +144,7 @@ func (r *repoCtx) tagLoopRules(fn string, ir *FuncIR, body Block, label string, 
 	c.Ob("tag-check/no-element-skipped", construct, skips == 0 && insert, at, fmt.Sprintf("%d continue/break statements come before the point where the tag is recorded: every element of the loop has its tag tested for zero/collision and recorded", skips))
 	c.Ob("tag-check/collision-rejected", construct, collFail, r.pos(tagPos), "lookup hit in the tag table returns an error")
 	c.Ob("tag-check/tag-inserted", construct, insert, r.pos(tagPos), "the tag is inserted under the same key after the collision test, before the next iteration")
+	return mapName
 }
 
 func errorExitDeep(blk Block) bool {
@@ -151,6 +163,13 @@ func errorExitDeep(blk Block) bool {
 
 // loopTotality: no break, no success return inside any loop of the function.
 func (r *repoCtx) loopTotality(rule, fn string, ir *FuncIR) int {
+	loops := r.loopTotalityParts(rule, fn, ir)
+	r.c.Ob(rule, fn, loops > 0, "", fmt.Sprintf("%d loops; none is left early with success", loops))
+	return loops
+}
+
+// loopTotalityParts reports early exits of the loops of one function and returns how many loops it has.
+func (r *repoCtx) loopTotalityParts(rule, fn string, ir *FuncIR) int {
 	loops := 0
 	walkBlock(ir.Body, nil, func(n Node, gs []Guard) {
 		if _, ok := n.(*LoopN); ok {
@@ -176,7 +195,6 @@ func (r *repoCtx) loopTotality(rule, fn string, ir *FuncIR) int {
 			}
 		}
 	})
-	r.c.Ob(rule, fn, loops > 0, "", fmt.Sprintf("%d loops; none is left early with success", loops))
 	return loops
 }
 
@@ -222,45 +240,89 @@ func checkC24(c *Check) {
 	if r == nil {
 		return
 	}
-	// kernel
+	// kernel: the check may be split into helpers; loops are collected through same-package calls, and the tag table each
+	// loop uses is traced back to the variable it was created as (a helper may receive the table as an argument)
 	if ir := r.ir("internal/pure.Kernel.checkTagCollisions"); ir != nil {
-		r.loopTotality("tag-check/loop-totality", "pure.Kernel.checkTagCollisions", ir)
 		n := 0
-		var visit func(blk Block, depth int)
-		visit = func(blk Block, depth int) {
-			for _, nd := range blk {
-				if lp, ok := nd.(*LoopN); ok {
-					inner := false
-					for _, m := range lp.Body {
-						if _, ok := m.(*LoopN); ok {
-							inner = true
+		tables := map[string]bool{}
+		seen := map[string]bool{}
+		loopsTotal := 0
+		var gather func(ir *FuncIR, fname string, binding map[string]string)
+		gather = func(ir *FuncIR, fname string, binding map[string]string) {
+			if seen[fname] {
+				return
+			}
+			seen[fname] = true
+			loopsTotal += r.loopTotalityParts("tag-check/loop-totality", "pure."+fname, ir)
+			root := func(name string) string {
+				if b, ok := binding[name]; ok {
+					return b
+				}
+				return fname + ":" + name
+			}
+			var visit func(blk Block)
+			visit = func(blk Block) {
+				for _, nd := range blk {
+					switch nd := nd.(type) {
+					case *CallN:
+						if nd.Fn == nil || nd.Fn.Pkg() == nil || nd.Fn.Pkg().Path() != "github.com/VKCOM/tl/internal/pure" {
+							continue
 						}
-					}
-					if inner {
-						visit(lp.Body, depth+1)
-						continue
-					}
-					n++
-					if strings.Contains(lp.Over, "TL2") {
-						// two kinds of TL2 declarations in one loop: function branch and type branch
-						var fnBranch Block
-						rest := Block{}
-						for _, m := range lp.Body {
-							if in, ok := m.(*IfN); ok && in.Cond.Kind == "bool" && strings.HasSuffix(in.Cond.X, "IsFunction") {
-								fnBranch = in.Then
-								continue
+						callee := r.irOf(nd.Fn)
+						if callee == nil || !strings.Contains(irText(callee), "loop ") {
+							continue
+						}
+						b := map[string]string{}
+						for i, p := range callee.Params {
+							if i < len(nd.Args) {
+								if _, isMap := p.Var.Type().Underlying().(*types.Map); isMap {
+									b[p.Name] = root(nd.Args[i])
+								}
 							}
-							rest = append(rest, m)
 						}
-						r.tagLoopRules("pure.Kernel.checkTagCollisions", ir, fnBranch, "tl2-functions", false)
-						r.tagLoopRules("pure.Kernel.checkTagCollisions", ir, rest, "tl2-types", false)
-					} else {
-						r.tagLoopRules("pure.Kernel.checkTagCollisions", ir, lp.Body, "tl1-combinators", true)
+						gather(callee, funcDisplayName(nd.Fn), b)
+					case *IfN:
+						visit(nd.Then)
+						visit(nd.Else)
+					case *LoopN:
+						inner := false
+						for _, m := range nd.Body {
+							if _, ok := m.(*LoopN); ok {
+								inner = true
+							}
+						}
+						if inner {
+							visit(nd.Body)
+							continue
+						}
+						n++
+						if strings.Contains(nd.Over, "TL2") {
+							// two kinds of TL2 declarations in one loop: function branch and type branch
+							var fnBranch Block
+							rest := Block{}
+							for _, m := range nd.Body {
+								if in, ok := m.(*IfN); ok && in.Cond.Kind == "bool" && strings.HasSuffix(in.Cond.X, "IsFunction") {
+									fnBranch = in.Then
+									continue
+								}
+								rest = append(rest, m)
+							}
+							for _, t := range []string{r.tagLoopRules("pure."+fname, ir, fnBranch, "tl2-functions", false), r.tagLoopRules("pure."+fname, ir, rest, "tl2-types", false)} {
+								if t != "" {
+									tables[root(t)] = true
+								}
+							}
+						} else if t := r.tagLoopRules("pure."+fname, ir, nd.Body, "tl1-combinators", true); t != "" {
+							tables[root(t)] = true
+						}
 					}
 				}
 			}
+			visit(ir.Body)
 		}
-		visit(ir.Body, 0)
+		gather(ir, "Kernel.checkTagCollisions", nil)
+		c.Ob("tag-check/loop-totality", "pure.Kernel.checkTagCollisions", loopsTotal > 0, "", fmt.Sprintf("%d loops in the check and its helpers; none is left early with success", loopsTotal))
+		c.Ob("tag-check/one-table-for-all-declarations", "pure.Kernel.checkTagCollisions", len(tables) == 1, r.pos(ir.Info.Decl.Pos()), fmt.Sprintf("TL1 constructors, TL1 functions, TL2 types and TL2 functions are all looked up in and recorded into one tag table; tables found: %v (a tag is unique only against the declarations recorded in the same table)", sortedKeys(tables)))
 	}
 	if ir := r.ir("internal/pure.Kernel.Compile"); ir != nil {
 		r.mustCallBeforeSuccess("tag-check/dominates-success", "pure.Kernel.Compile", ir, "checkTagCollisions")
